@@ -41,7 +41,7 @@ pub fn string_alphabet(pos: Pos) -> Vec<String> {
         Pos::Header | Pos::Meta => vec![s("a b"), s("a  b"), s("a,b"), s("a;b=\"c\""), s("%41"), s("+"), "h".repeat(255)],
         Pos::Query => vec![s(""), s("a b"), s("a+b"), s("a%b"), s("a&b=c"), s("a/b"), s("a?b"), s("a#b"), s("é"), s("😀"), s(".."), "q".repeat(1024)],
         Pos::Label => vec![s("a b"), s("a+b"), s("a%b"), s("a&b=c"), s("a/b"), s("a?b"), s("a#b"), s("é"), s("😀"), s("a/../b"), "k".repeat(1024)],
-        Pos::Xml | Pos::Payload => vec![s(""), s(" a "), s("<a&b>\"'"), s("]]>"), s("é😀"), s("a\tb\nc"), s("\r"), s("\u{85}"), s("\u{fffd}")],
+        Pos::Xml | Pos::Payload => vec![s(""), s(" a "), s(" "), s("\t\n"), s("<a&b>\"'"), s("]]>"), s("é😀"), s("a\tb\nc"), s("\r"), s("\u{85}"), s("\u{fffd}")],
     }
 }
 
